@@ -40,6 +40,8 @@ const FOO_BAR: &str = "import { iso } from '@iso';\nexport const Foo = iso(`\n  
 fn main() {
     let mode = std::env::args().nth(1).unwrap_or_default();
     let root = PathBuf::from(std::env::args().nth(2).unwrap_or("/verif/.build/replay-work/p".into()));
+    // the compiler keys source files by their path relative to an ABSOLUTE working directory
+    let root = if root.is_absolute() { root } else { std::env::current_dir().unwrap().join(root) };
     let cwd: CurrentWorkingDirectory = root.to_str().unwrap().intern().into();
     match mode.as_str() {
         "root_only" => {
@@ -98,6 +100,41 @@ fn main() {
             let want = rel_files(&root2);
             println!("files after the successful third compile: {}, fresh compile of the same sources: {}", got.len(), want.len());
             if got != want {
+                for (n, _) in &want {
+                    if !got.iter().any(|(m, _)| m == n) { println!("NOT REPAIRED: {n} is missing although the last compile succeeded"); }
+                }
+                std::process::exit(1);
+            }
+            // second history: the write fails AFTER some operations were applied (the root
+            // file iso.ts is written last; a directory in its place makes that write fail once
+            // Query/Bar has been created), then the user UNDOES the edit, then the compile
+            // succeeds: the directory must equal a fresh compile of the undone sources.
+            setup(&root, FOO);
+            let config = create_config(&root.join("isograph.config.json"), cwd);
+            let mut state = CompilerState::<P>::new(config, cwd).map_err(|e| e.0).expect("state");
+            compile::<P>(&mut state).map_err(|e| format!("{e:?}")).expect("first compile");
+            state.db.insert_iso_literal(rel, FOO_BAR.to_string());
+            let iso_ts = root.join("src/__isograph/iso.ts");
+            fs::remove_file(&iso_ts).unwrap();
+            fs::create_dir(&iso_ts).unwrap();
+            let second = compile::<P>(&mut state);
+            println!("history 2, second compile (iso.ts obstructed): {}", if second.is_ok() { "ok" } else { "failed as intended" });
+            fs::remove_dir(&iso_ts).unwrap();
+            state.db.insert_iso_literal(rel, FOO.to_string());
+            let third = compile::<P>(&mut state);
+            println!("history 2, third compile (edit undone): {}", if third.is_ok() { "ok" } else { "failed" });
+            if third.is_err() { std::process::exit(1); }
+            setup(&root2, FOO);
+            let config3 = create_config(&root2.join("isograph.config.json"), cwd2);
+            let mut fresh2 = CompilerState::<P>::new(config3, cwd2).map_err(|e| e.0).expect("state");
+            compile::<P>(&mut fresh2).map_err(|e| format!("{e:?}")).expect("fresh compile");
+            let got = rel_files(&root);
+            let want = rel_files(&root2);
+            println!("history 2: files after the successful third compile: {}, fresh compile of the same sources: {}", got.len(), want.len());
+            if got != want {
+                for (n, _) in &got {
+                    if !want.iter().any(|(m, _)| m == n) { println!("NOT REPAIRED: stale {n} although the last compile succeeded"); }
+                }
                 for (n, _) in &want {
                     if !got.iter().any(|(m, _)| m == n) { println!("NOT REPAIRED: {n} is missing although the last compile succeeded"); }
                 }
@@ -165,6 +202,34 @@ fn main() {
                     }
                 }
             }
+            // the same edits in a session whose PREVIOUS compile failed half-way through its
+            // writes (the remembered state is gone then; the failed compile must still not touch
+            // the directory)
+            for (what, text) in invalid.iter() {
+                setup(&root, FOO);
+                let config = create_config(&root.join("isograph.config.json"), cwd);
+                let mut state = CompilerState::<P>::new(config, cwd).map_err(|e| e.0).expect("state");
+                compile::<P>(&mut state).map_err(|e| format!("{e:?}")).expect("valid project compiles");
+                let rel: common_lang_types::RelativePathToSourceFile = "src/a.ts".intern().into();
+                state.db.insert_iso_literal(rel, FOO_BAR.to_string());
+                let obstacle = root.join("src/__isograph/Query/Bar");
+                fs::write(&obstacle, "in the way").unwrap();
+                let second = compile::<P>(&mut state);
+                fs::remove_file(&obstacle).unwrap();
+                if second.is_ok() { println!("{what}: the obstructed write did not fail (skipped)"); continue; }
+                let before = snapshot(&root);
+                state.db.insert_iso_literal(rel, text.clone());
+                let r = compile::<P>(&mut state);
+                let after = snapshot(&root);
+                if let Err(e) = r {
+                    if before != after {
+                        println!("TOUCHED: {what} after an interrupted write: compile reported {} error diagnostic(s) but changed the artifact directory ({} files before, {} after)", e.len(), before.len(), after.len());
+                        bad = true;
+                    } else {
+                        println!("{what} after an interrupted write: error reported, artifact directory untouched");
+                    }
+                }
+            }
             if bad { std::process::exit(1); }
         }
         "parse" => {
@@ -200,11 +265,22 @@ fn main() {
                         n += 1;
                         let t2 = text.clone();
                         let r = std::panic::catch_unwind(move || {
-                            let _ = isograph_lang_parser::parse_iso_literal(t2, rel, Some("x".to_string()), ts);
+                            isograph_lang_parser::parse_iso_literal(t2, rel, Some("x".to_string()), ts).err().map(|d| d.0.location)
                         });
-                        if r.is_err() {
-                            println!("PANIC: parse_iso_literal panicked on {:?}", text);
-                            std::process::exit(1);
+                        match r {
+                            Err(_) => {
+                                println!("PANIC: parse_iso_literal panicked on {:?}", text);
+                                std::process::exit(1);
+                            }
+                            // a diagnostic's location must lie inside the literal on char boundaries
+                            Ok(Some(Some(common_lang_types::Location::Embedded(e)))) => {
+                                let (a, b) = (e.span.start as usize, e.span.end as usize);
+                                if a > b || b > text.len() || !text.is_char_boundary(a) || !text.is_char_boundary(b) {
+                                    println!("BAD SPAN: diagnostic span {a}..{b} for {:?} (len {}) is not a well-formed range of the literal", text, text.len());
+                                    std::process::exit(1);
+                                }
+                            }
+                            _ => {}
                         }
                     }
                 }
